@@ -628,6 +628,170 @@ def explicit_nonce_from_record(chk):
     chk.floor('AEAD record decrypt functions', n, 2)
 
 
+def transcript_follows_wire(chk):
+    """The Finished verify_data (and the CertificateVerify / extended-master-secret hashes) are computed over the handshake messages as
+    they go over the wire.  The four natives that move handshake bytes between the engine's handshake window (hbuf_in / hbuf_out) and
+    the context (read-chunk-native, read8-native, write-blob-chunk, write8-native) are the only places where the running hash is fed:
+    in each, the bytes hashed must be the bytes consumed -- the hashed length is the very amount by which the window pointer advances
+    and the window length shrinks, the hashed pointer is the window pointer itself (or the one-byte local that holds the byte taken
+    from / put into the window); and every advance of a window is preceded by such an update in the same native.  A hash fed with the
+    remaining blob length instead of the chunk length agrees with the wire only while no message straddles a record boundary."""
+    R = 'transcript-follows-wire'
+    n = 0
+    for src, fn in (('src/ssl/ssl_hs_client.c', 'br_ssl_hs_client_run'), ('src/ssl/ssl_hs_server.c', 'br_ssl_hs_server_run')):
+        u = build.load_unit(src)
+        L = irf.Layouts(u)
+        F = next((irf.Func(u, f) for f in u['functions'] if f['name'] == fn and f.get('blocks')), None)
+        if F is None:
+            raise AnalysisBroken('%s vanished from %s' % (fn, src))
+        cpu = L.field('br_ssl_engine_context', 'cpu')[0]
+        off = {k: L.field('br_ssl_engine_context', k)[0] - cpu for k in ('mhash', 'hbuf_in', 'hlen_in', 'hbuf_out', 'hlen_out', 'record_type_in', 'record_type_out')}
+        CTX = {'k': 'a', 'v': 0}
+        sw = [b['insts'][-1] for b in F.blocks if b['insts'][-1]['op'] == 'switch']
+        if not sw:
+            raise AnalysisBroken('%s: no dispatch switch' % fn)
+        D = F.block_of[max(sw, key=lambda i: len(i['ops']))['id']]
+
+        def fld(o):
+            b, k = F.addr_of(o)
+            if b == CTX:
+                return next((nm for nm, v in off.items() if v == k), None)
+            return None
+
+        def region(b0, forward=True):
+            seen, st = {b0}, [b0]
+            while st:
+                b = st.pop()
+                for x in (F.succ[b] if forward else F.pred[b]):
+                    if x != D and x not in seen:
+                        seen.add(x)
+                        st.append(x)
+            return seen
+
+        def same(a, b):
+            a, b = F.strip_casts(a), F.strip_casts(b)
+            if a['k'] == 'c' and b['k'] == 'c':
+                return a['v'] == b['v']
+            return a['k'] == b['k'] == 'i' and a['v'] == b['v']
+
+        def advance(st):
+            """(direction, amount operand) of a store that advances hbuf_X or shrinks hlen_X; amount None if not of that shape"""
+            f = fld(st['ops'][1])
+            v = st['ops'][0]
+            if v['k'] != 'i':
+                return f, None
+            j = F.insts[v['v']]
+            if j['op'] == 'getelementptr' and f.startswith('hbuf'):
+                base = F.strip_casts(j['ops'][0])
+                if base['k'] == 'i' and F.insts[base['v']]['op'] == 'load' and fld(F.insts[base['v']]['ops'][0]) == f:
+                    if j.get('var') and len(j['var']) == 1 and j['var'][0][1] == 1 and not j.get('off'):
+                        return f, j['var'][0][0]
+                    if not j.get('var'):
+                        return f, {'k': 'c', 'v': j.get('off')}
+            if j['op'] in ('sub', 'add') and f.startswith('hlen'):
+                a, b = j['ops']
+                a = F.strip_casts(a)
+                if a['k'] == 'i' and F.insts[a['v']]['op'] == 'load' and fld(F.insts[a['v']]['ops'][0]) == f:
+                    if j['op'] == 'sub':
+                        return f, b
+                    if b['k'] == 'c':
+                        return f, {'k': 'c', 'v': -b['v']}
+            return f, None
+        upd = [c for c in F.calls('br_multihash_update') if fld(c['ops'][0]) == 'mhash']
+        stores = [i for i in F.insts.values() if i['op'] == 'store' and fld(i['ops'][1]) in ('hbuf_in', 'hlen_in', 'hbuf_out', 'hlen_out')]
+        for c in upd:
+            n += 1
+            inst = '%s:%s: the running handshake hash is fed exactly the bytes this native moves through the window' % (fn, c.get('line'))
+            reg = region(F.block_of[c['id']]) | region(F.block_of[c['id']], forward=False)
+            here = [s_ for s_ in stores if F.block_of[s_['id']] in reg]
+            adv = [(s_,) + advance(s_) for s_ in here]
+            dirs = set(f[-2:] if f.endswith('in') else 'out' for _, f, _ in adv)
+            bad = None
+            if len(adv) != 2 or len(dirs) != 1 or set(f[:4] for _, f, _ in adv) != {'hbuf', 'hlen'}:
+                bad = 'the native does not advance exactly one window pointer and its length after the update (%s)' % sorted(f for _, f, _ in adv)
+            else:
+                d = 'in' if next(iter(dirs)) == 'in' else 'out'
+                for s_, f, amt in adv:
+                    if amt is None or not same(amt, c['ops'][2]):
+                        bad = '%s moves by another amount than the %s bytes hashed' % (f, 'constant' if c['ops'][2]['k'] == 'c' else 'variable number of')
+                        break
+                if not bad:
+                    pb, po = F.addr_of(c['ops'][1])
+                    pv = F.strip_casts(c['ops'][1])
+                    if pv['k'] == 'i' and F.insts[pv['v']]['op'] == 'load' and fld(F.insts[pv['v']]['ops'][0]) == 'hbuf_' + d:
+                        pass
+                    elif pb['k'] == 'i' and F.insts[pb['v']]['op'] == 'alloca' and po == 0 and c['ops'][2]['k'] == 'c' and c['ops'][2]['v'] == 1:
+                        # the one-byte local: it must be the byte read from / written to the window
+                        x = pb['v']
+                        wr = [i for i in F.insts.values() if i['op'] == 'store' and F.addr_of(i['ops'][1]) == (pb, 0)]
+                        okb = False
+                        if d == 'in':
+                            for w in wr:
+                                v = F.strip_casts(w['ops'][0])
+                                if v['k'] == 'i' and F.insts[v['v']]['op'] == 'load':
+                                    a = F.strip_casts(F.insts[v['v']]['ops'][0])
+                                    if a['k'] == 'i' and F.insts[a['v']]['op'] == 'load' and fld(F.insts[a['v']]['ops'][0]) == 'hbuf_in':
+                                        okb = True
+                        else:
+                            for s2 in F.insts.values():
+                                if s2['op'] != 'store' or F.block_of[s2['id']] not in reg:
+                                    continue
+                                a = F.strip_casts(s2['ops'][1])
+                                if a['k'] == 'i' and F.insts[a['v']]['op'] == 'load' and fld(F.insts[a['v']]['ops'][0]) == 'hbuf_out':
+                                    v = F.strip_casts(s2['ops'][0])
+                                    if (v['k'] == 'i' and F.insts[v['v']]['op'] == 'load' and F.addr_of(F.insts[v['v']]['ops'][0]) == (pb, 0)) or \
+                                            any(same(w['ops'][0], s2['ops'][0]) for w in wr):
+                                        okb = True
+                        if not okb:
+                            bad = 'the byte hashed is not the byte %s the window' % ('read from' if d == 'in' else 'stored into')
+                    else:
+                        # or the other side of the copy that moves these very bytes through the window
+                        okc = False
+                        for m in F.calls():
+                            if not (m.get('callee') or '').startswith(('llvm.memcpy', 'llvm.memmove', 'memcpy')) or F.block_of[m['id']] not in reg:
+                                continue
+                            sides = [F.strip_casts(m['ops'][0]), F.strip_casts(m['ops'][1])]
+                            isw = [x['k'] == 'i' and F.insts[x['v']]['op'] == 'load' and fld(F.insts[x['v']]['ops'][0]) == 'hbuf_' + d for x in sides]
+                            if any(isw) and same(m['ops'][2], c['ops'][2]) and any(same(x, c['ops'][1]) for x, w in zip(sides, isw) if not w):
+                                okc = True
+                        if not okc:
+                            bad = 'the pointer hashed is neither the hbuf_%s window pointer nor the other side of the copy through it' % d
+                if not bad:
+                    # only handshake records are hashed: the update is on the taken side of `record_type_<dir> == BR_SSL_HANDSHAKE`
+                    cb = F.block_of[c['id']]
+                    okg = False
+                    for pb_ in F.pred[cb]:
+                        t = next(b for b in F.blocks if b['id'] == pb_)['insts'][-1]
+                        if t['op'] != 'br' or len(t['ops']) != 3 or t['ops'][0]['k'] != 'i':
+                            continue
+                        q = F.insts[t['ops'][0]['v']]
+                        if q['op'] == 'icmp' and q.get('pred') == 'eq' and q['ops'][1]['k'] == 'c' and q['ops'][1]['v'] == 22:
+                            lv = F.strip_casts(q['ops'][0])
+                            if lv['k'] == 'i' and F.insts[lv['v']]['op'] == 'load' and fld(F.insts[lv['v']]['ops'][0]) == 'record_type_' + d \
+                                    and t['ops'][2].get('v') == cb and t['ops'][1].get('v') != cb and len(F.pred[cb]) == 1:
+                                okg = True
+                    if not okg:
+                        bad = 'the update is not guarded by record_type_%s == BR_SSL_HANDSHAKE (ChangeCipherSpec and alert bytes are not part of the transcript)' % d
+            if bad:
+                chk.violation(R, inst, F.where(c), bad + ': the transcript hash diverges from the bytes sent whenever the two differ (a message '
+                              'continued in the next record), and the Finished check fails', key='%s %s %s' % (R, fn, bad[:24]))
+            else:
+                chk.ok(R, inst, F.where(c))
+        # converse: every advance of a window is preceded, in its native, by an update of the running hash
+        for s_ in stores:
+            f, amt = advance(s_)
+            if not f.startswith('hbuf') or amt is None:
+                continue
+            n += 1
+            inst = '%s:%s: advancing %s is accompanied by an update of the running handshake hash' % (fn, s_.get('line'), f)
+            reg = region(F.block_of[s_['id']], forward=False) | region(F.block_of[s_['id']])
+            if any(F.block_of[c['id']] in reg for c in upd):
+                chk.ok(R, inst, F.where(s_))
+            else:
+                chk.violation(R, inst, F.where(s_), 'handshake bytes leave or enter the window without being hashed', key='%s %s adv %s' % (R, fn, f))
+    chk.floor('transcript natives', n, 16)
+
+
 def ec_work_buffers(chk):
     """Every supported curve must be usable in the key exchange (P-521: 66-byte coordinates and scalars, 133-byte points).  The handshake
     code copies the shared X coordinate, the ephemeral scalar and the peer's point through fixed local arrays; an array smaller than
@@ -681,6 +845,7 @@ def run(tier):
     key_export_seed(chk)
     explicit_nonce_from_record(chk)
     ec_work_buffers(chk)
+    transcript_follows_wire(chk)
     from .c02 import cbc_padding_length_range
     cbc_padding_length_range(chk)
     from .. import engio, oblig as _ob
